@@ -312,6 +312,9 @@ claim("C06",
 
 # clauses added after the independent seeded changes (DESIGN §8); appended to the level text
 EXTRA = {
+ "C20": " Round 2: a confirm for an unknown block is cached on every path; nothing but the operator's file and listed parents puts a block on the blacklist.",
+ "C19": " Round 2: the confirm filter and the save of filtered confirms hold chainLock; the pending-write index rules are evaluated here as well.",
+ "C17": " Round 2: Hash/Commit answer from hashRoot over the current root or from a memo every content write drops; the value slot of a branch node and a short node's value child are never passed to the recursive hash.",
  "C12": " Round 2: the equity trie root has a closed writer set and its raw setter is reached only from the EquityRootLog's redo/undo.",
  "C08": " Round 2: an accepted recovery scan returns the scan cursor, not the file size; RunContext.Flush reports success only after the file was replaced, or skips under a dirty flag that every writer of the candidate cache raises; every insert into the pending-write index counts the pending writes of its key.",
  "C06": " Round 2: SetSingers installs a freshly built list; signing hashes read fields directly or through faithful accessors.",
@@ -324,11 +327,11 @@ EXTRA = {
  "C09": " Also: a node made to carry an existing node's account keeps that node's dye. Round 2: the manager's mutable account never aliases a value cached in a view (Get returns copies or NewAccount copies); the pending-write index rules are evaluated here as well.",
  "C10": " Also: the list ranked at start-up is built only from candidates whose stored isCandidate flag is true. Round 2: every list that becomes a published Top has the provenance of the total order (ranking result, published Top, order-preserving filter/prefix, empty), interprocedurally; no account Put of Save runs after the ranking; needMerge(VotesLog) by partial evaluation.",
  "C11": " Also: the balance a vote transaction weighs is read before the transaction's gas purchase. Round 2: outside the journal every SetVotes is relative to GetVotes of the same account or one of three listed absolute writes.",
- "C13": " Also: miner and verifier read the deputy set of parent height + 1 for round length and rotation and consult the parent's miner only outside the height-1 / first-block-of-term case (input agreement, not arithmetic).",
- "C14": " Also: no fast path to success around the fetch the canonical test inspects; custom decoders fill no field from a sibling field.",
- "C15": " Also (C15.8): every sub transaction of a decoded box is non-nil when GetBox succeeds and every reader gets its box from GetBox; results of network functions with a `return nil` path are nil-tested by every caller before use. Round 2: the crash-site inventory has a per-(package, kind) budget for sites that move inside their package.",
- "C16": " Also (C16.7): SetCallCode's hash identifies the installed code (key of the jump-destination cache).",
- "C18": " Also: DelTxs on a fork switch receives the unfiltered new-fork list.",
+ "C13": " Also: miner and verifier read the deputy set of parent height + 1 for round length and rotation and consult the parent's miner only outside the height-1 / first-block-of-term case (input agreement, not arithmetic). Round 2: round length and rotation answer from one cut deputy list (C03.6 evaluated here). Slot arithmetic stays undecided (a seeded change of GetNextMineWindow's arithmetic is not caught).",
+ "C14": " Also: no fast path to success around the fetch the canonical test inspects; custom decoders fill no field from a sibling field. Round 2: custom decoders consume the value they decode (or their type is decoded only where nothing can follow); narrow-typed indices into fixed arrays are in range.",
+ "C15": " Also (C15.8): every sub transaction of a decoded box is non-nil when GetBox succeeds and every reader gets its box from GetBox; results of network functions with a `return nil` path are nil-tested by every caller before use. Round 2: the crash-site inventory has a per-(package, kind) budget for sites that move inside their package. Round 2: integer divisions in the network closure are zero-tested or inventoried with the invariant that keeps the divisor from zero; the ordering premise (signer and height checks heeded before the miner-slot check) is an obligation.",
+ "C16": " Also (C16.7): SetCallCode's hash identifies the installed code (key of the jump-destination cache). Round 2: a stipend added to the nested frame's gas is paid by the value-transfer surcharge of the opcode's gas function.",
+ "C18": " Also: DelTxs on a fork switch receives the unfiltered new-fork list. Round 2: index inserts happen under the same hold of the pool mutex as the existence test; every indexer expands boxes.",
 }
 for _pid, _t in EXTRA.items():
     if _pid in CLAIMED:
